@@ -1,0 +1,147 @@
+//go:build verif
+
+package mangos
+
+import (
+	"fmt"
+	"runtime"
+	"strings"
+	"sync"
+	"sync/atomic"
+)
+
+// Verification ledger for message ownership; only built with the "verif" tag.
+// It observes Free/Clone/MakeUnique/Dup/NewMessage and records:
+//   - a Free of a message whose reference count is already zero (double release),
+//   - Clone/MakeUnique/Dup of a released message (use after release),
+//   - a write into a released buffer (poison disturbed when the buffer is reused),
+//   - a NewMessage result that is not empty or lacks the requested capacity.
+// On release the whole buffer is overwritten with verifPoison so that any
+// holder of a stale reference sees it.
+
+const verifPoison = 0xDB
+
+type verifMsgState struct {
+	made     uint32 // number of times handed out by NewMessage
+	released int32  // 1 while released
+	relStack [8]uintptr
+	relN     int32
+}
+
+var verifLedger struct {
+	sync.Mutex
+	reports  []string
+	news     int64
+	releases int64
+	frees    int64
+}
+
+func verifStack(pcs []uintptr) string {
+	var sb strings.Builder
+	frames := runtime.CallersFrames(pcs)
+	for {
+		f, more := frames.Next()
+		if f.Function != "" {
+			fmt.Fprintf(&sb, "    %s (%s:%d)\n", f.Function, f.File, f.Line)
+		}
+		if !more {
+			break
+		}
+	}
+	return sb.String()
+}
+
+func verifRecord(kind string, m *Message) {
+	var pcs [12]uintptr
+	n := runtime.Callers(3, pcs[:])
+	rel := ""
+	if k := atomic.LoadInt32(&m.vs.relN); k > 0 {
+		rel = "  released at:\n" + verifStack(m.vs.relStack[:k])
+	}
+	verifLedger.Lock()
+	if len(verifLedger.reports) < 64 {
+		verifLedger.reports = append(verifLedger.reports,
+			fmt.Sprintf("%s\n  at:\n%s%s", kind, verifStack(pcs[:n]), rel))
+	}
+	verifLedger.Unlock()
+}
+
+func verifPreFree(m *Message) {
+	atomic.AddInt64(&verifLedger.frees, 1)
+	if atomic.LoadUint32(&m.vs.made) != 0 && atomic.LoadInt32(&m.refcnt) <= 0 {
+		verifRecord("double-release: Free of a message whose reference count is already zero", m)
+	}
+}
+
+func verifRelease(m *Message) {
+	atomic.AddInt64(&verifLedger.releases, 1)
+	n := runtime.Callers(3, m.vs.relStack[:])
+	atomic.StoreInt32(&m.vs.relN, int32(n))
+	atomic.StoreInt32(&m.vs.released, 1)
+	b := m.bbuf[:cap(m.bbuf)]
+	for i := range b {
+		b[i] = verifPoison
+	}
+	h := m.hbuf[:cap(m.hbuf)]
+	for i := range h {
+		h[i] = verifPoison
+	}
+	// Body/Header may have been reallocated by append; poison those too.
+	if cap(m.Body) > 0 && (cap(m.bbuf) == 0 || &m.Body[:1][0] != &m.bbuf[:1][0]) {
+		b = m.Body[:cap(m.Body)]
+		for i := range b {
+			b[i] = verifPoison
+		}
+	}
+	if cap(m.Header) > 0 && (cap(m.hbuf) == 0 || &m.Header[:1][0] != &m.hbuf[:1][0]) {
+		h = m.Header[:cap(m.Header)]
+		for i := range h {
+			h[i] = verifPoison
+		}
+	}
+}
+
+func verifUse(m *Message, op string) {
+	if m != nil && atomic.LoadInt32(&m.vs.released) != 0 {
+		verifRecord("use-after-release: "+op+" of a released message", m)
+	}
+}
+
+func verifNew(m *Message, sz int) {
+	atomic.AddInt64(&verifLedger.news, 1)
+	if atomic.LoadInt32(&m.vs.released) != 0 {
+		// Coming back from the pool: the poison must be intact.
+		b := m.bbuf[:cap(m.bbuf)]
+		for i := range b {
+			if b[i] != verifPoison {
+				verifRecord(fmt.Sprintf("write-after-release: buffer byte %d of a pooled message changed while released", i), m)
+				break
+			}
+		}
+	}
+	atomic.StoreInt32(&m.vs.released, 0)
+	atomic.StoreInt32(&m.vs.relN, 0)
+	atomic.AddUint32(&m.vs.made, 1)
+	if len(m.Body) != 0 || len(m.Header) != 0 || cap(m.Body) < sz {
+		verifRecord(fmt.Sprintf("NewMessage(%d) returned len(Body)=%d len(Header)=%d cap(Body)=%d", sz, len(m.Body), len(m.Header), cap(m.Body)), m)
+	}
+}
+
+// VerifLedgerReport returns and clears the recorded ownership violations.
+func VerifLedgerReport() []string {
+	verifLedger.Lock()
+	defer verifLedger.Unlock()
+	r := verifLedger.reports
+	verifLedger.reports = nil
+	return r
+}
+
+// VerifLedgerCounts returns the number of NewMessage calls, Free calls and releases.
+func VerifLedgerCounts() (news, frees, releases int64) {
+	return atomic.LoadInt64(&verifLedger.news), atomic.LoadInt64(&verifLedger.frees), atomic.LoadInt64(&verifLedger.releases)
+}
+
+// VerifMessageReleased reports whether the message is currently released.
+func VerifMessageReleased(m *Message) bool {
+	return atomic.LoadInt32(&m.vs.released) != 0
+}
